@@ -291,3 +291,12 @@ func c17GenEngineRangeDays(rng *h.Rng) c17RngCase {
 	}
 	return c
 }
+
+// c17DateBound: the date literal that follows prefix in a statement ("" = not found)
+func c17DateBound(q, prefix string) string {
+	i := strings.Index(q, prefix)
+	if i < 0 || len(q) < i+len(prefix)+10 {
+		return ""
+	}
+	return q[i+len(prefix) : i+len(prefix)+10]
+}
